@@ -405,8 +405,20 @@ func (in *Interp) runeToString(r *Term) Str {
 	if in.branch(tb.And(tb.Le(tb.Int(0), r), tb.Lt(r, tb.Int(0x80)))) {
 		return Str{[]*Term{r}}
 	}
-	c := in.concretizeInt(r, "rune to string")
-	return in.mkStr(string(rune(c)))
+	// symbolic rune >= 0x80: utf8.EncodeRune by length class; surrogates and out-of-range values
+	// encode U+FFFD
+	d := func(t *Term, k int64) *Term { return tb.DivF(t, big.NewInt(k)) }
+	m := func(t *Term, k int64) *Term { return tb.ModF(t, big.NewInt(k)) }
+	inR := func(lo, hi int64) bool { return in.branch(tb.And(tb.Le(tb.Int(lo), r), tb.Le(r, tb.Int(hi)))) }
+	switch {
+	case inR(0x80, 0x7FF):
+		return Str{[]*Term{tb.Add(tb.Int(0xC0), d(r, 64)), tb.Add(tb.Int(0x80), m(r, 64))}}
+	case inR(0x800, 0xD7FF) || inR(0xE000, 0xFFFF):
+		return Str{[]*Term{tb.Add(tb.Int(0xE0), d(r, 4096)), tb.Add(tb.Int(0x80), m(d(r, 64), 64)), tb.Add(tb.Int(0x80), m(r, 64))}}
+	case inR(0x10000, 0x10FFFF):
+		return Str{[]*Term{tb.Add(tb.Int(0xF0), d(r, 262144)), tb.Add(tb.Int(0x80), m(d(r, 4096), 64)), tb.Add(tb.Int(0x80), m(d(r, 64), 64)), tb.Add(tb.Int(0x80), m(r, 64))}}
+	}
+	return in.mkStr("\uFFFD")
 }
 
 // ---------------------------------------------------------------------------------------------
